@@ -25,14 +25,24 @@ CLAIM = dict(
     "every (orbit, dt) actually used; disagreement is a harness error, not a violation) and Earth.mu/J2/r as data.",
     technique="exhaustive product over finite input alphabets on the real code vs. independent reference model and algebraic laws",
 )
+RULE_HISTORY = (
+    " History part: states = histories (sequences over {propagate and discard, propagate and continue from the result, write "
+    "by index, write by name, in-place form change, in-place frame change EME2000<->G50, copy()}) up to depth 3 (quick) / 4 "
+    "(thorough) on one Orbit object, for Kepler and J2, from every initial form; every propagation of a history, and three final "
+    "ones (0, +5000, -7000 s), are compared with the reference propagation of the object's CURRENT numbers and with a brand-new "
+    "Orbit of the same content. Each history is executed on a freshly built object (a case is the whole history)."
+)
 RULE = (
     "cases = (initial state = orbit x element form x frame, dt) for the full product; every case differs from every "
     "other in one alphabet coordinate (distinct by construction). non-trivial = dt != 0 (always) - the key is "
     "(propagator, orbit, form, frame) with the dt's counted as evaluations under it."
 )
+RULE = RULE + RULE_HISTORY
 BOUNDS = {
-    "quick": "10 forms x 2 frames (EME2000, TOD) x 9 e x 5 i x 3 perigee radii x 12 dt x (direct + 3 splits + inverse + period); J2 on all elliptic states x 20 dt",
-    "thorough": "10 forms x 4 frames (EME2000, GCRF, G50, TOD) x 9 e x 5 i x 6 perigee radii (with their node/perigee/M0) x 20 dt x (direct + 3 splits + inverse + period); J2 likewise",
+    "quick": "10 forms x 2 frames (EME2000, TOD) x 9 e x 5 i x 3 perigee radii x 12 dt x (direct + 3 splits + inverse + period); J2 on all elliptic states x 20 dt; "
+    "operation histories: 7 operations, depth <= 3, Kepler on an ellipse and a hyperbola, J2 on an ellipse, every initial form",
+    "thorough": "10 forms x 4 frames (EME2000, GCRF, G50, TOD) x 9 e x 5 i x 6 perigee radii (with their node/perigee/M0) x 20 dt x (direct + 3 splits + inverse + period); J2 likewise; "
+    "operation histories: depth <= 4, 6 (propagator, orbit) pairs",
 }
 ASSUMPTIONS = [
     "hyperbolic initial states are given in the 8 forms defined for them (not TLE, not keplerian_mean_circular - see C01)",
@@ -100,6 +110,13 @@ def units(tier, seed):
                 if e > 1 and form in ("tle", "keplerian_mean_circular"):
                     continue  # forms not defined for hyperbolas (counted as exclusions in run_unit)
                 u.append((cfg, dict(frame=frame, form=form, e=e, tier=tier)))
+    # operation histories: one unit per (propagator, orbit, initial form, first operation)
+    for prop, orb in HK_ORBITS[tier]:
+        for form in fr.FORMS:
+            if orb[0] > 1 and form in ("tle", "keplerian_mean_circular"):
+                continue
+            for first in HK_OPS:
+                u.append((cfg, dict(part="hist", propagator=prop, orbit=list(orb), form=form, first=first, depth=HK_DEPTH[tier], tier=tier)))
     return u
 
 
@@ -472,7 +489,168 @@ def check_j2(orb, form, frame, dt, t):
 # ---------------------------------------------------------------------------
 
 
+# ---------------------------------------------------------------------------
+# propagation under operation histories (explicit-state part)
+#
+# A case is a whole short history executed on a freshly built Orbit: nothing is shared between cases.
+# Operations act on the current target (the original Orbit, or the object that replaced it):
+#   prop    target.propagate(+1234 s), result compared with the reference and discarded (the target is unchanged:
+#           this is what initialises / re-uses the propagator bound to the object)
+#   step    target = target.propagate(+600 s)     (checked, too)
+#   idx     write the last three components by index:  target[3:] = 1.01 x target[3:]
+#   name    write the first component by its name:     target.<first parameter> = 0.97 x value
+#   form    in-place form change
+#   frame   in-place frame change EME2000 <-> G50 (constant rotation, same centre, non-rotating)
+#   copy    target = target.copy()
+# After the last operation the target is propagated by 0 s, +5000 s and -7000 s; every propagation of the history is
+# compared with the reference propagation (universal variables / secular J2 model) of the state the reference model
+# derives from the target's CURRENT numbers, form and frame at the moment of the call.
+
+HK_OPS = ["prop", "step", "idx", "name", "form", "frame", "copy"]
+HK_FRAMES = {"EME2000": "G50", "G50": "EME2000"}
+HK_FINAL = [0.0, 5000.0, -7000.0]
+HK_ORBITS = {
+    "quick": [("Kepler", (0.1, 1.1, 7.0e6, 3.5, 5.5, -2.0)), ("J2", (0.1, 1.1, 7.0e6, 3.5, 5.5, -2.0)), ("Kepler", (1.5, 2.5, 6.7e6, 1.0, 0.7, 0.8))],
+    "thorough": [("Kepler", (0.1, 1.1, 7.0e6, 3.5, 5.5, -2.0)), ("J2", (0.1, 1.1, 7.0e6, 3.5, 5.5, -2.0)), ("Kepler", (1.5, 2.5, 6.7e6, 1.0, 0.7, 0.8)),
+                 ("Kepler", (0.5, 0.01, 4.2e7, 6.0, 3.0, 3.5)), ("J2", (0.5, 2.5, 4.2e7, 6.0, 3.0, 3.5)), ("Kepler", (3.7, 1.1, 7.0e6, 3.5, 5.5, -2.0))],
+}
+HK_DEPTH = {"quick": 3, "thorough": 4}
+
+
+def hk_histories(depth):
+    out = [()]
+    for d in range(1, depth + 1):
+        out.extend(itertools.product(HK_OPS, repeat=d))
+    return out
+
+
+def _state_R(obj):
+    """Reference description of the CURRENT content of a library object (numbers, form; same-centre frame)."""
+    from mc.ref import forms_ref as fr
+    from mc.ref import twobody as tb
+
+    mu = float(_earth().mu)
+    arr = np.array(obj, dtype=float)
+    if not np.all(np.isfinite(arr)):
+        return None
+    rv = np.asarray(fr.to_cart(obj.form.name, arr, mu), dtype=float)
+    k = tb.cart_to_kep(rv, mu)
+    e = k["e"]
+    if not ((1e-4 * (1 - 1e-9) <= e <= 0.95 or 1.01 <= e <= 10) and 0.01 * (1 - 1e-9) <= k["i"] <= math.pi - 0.01 * (1 - 1e-9)):
+        return "outside"
+    return dict(mu=mu, a=k["a"], e=e, i=k["i"], Om=k["Om"], w=k["w"], M0=k["M"], n=k["n"], rv=rv,
+                conic="ell" if e < 1 else "hyp", cond=1 + 1 / abs(1 - e))
+
+
+def _hk_propagate(t, st, dt, prop, case, what):
+    """target.propagate(dt) on the real code vs. the reference propagation of the target's current state.
+    Returns the library result (or None)."""
+    from mc.ref import twobody as tb
+
+    o = st["obj"]
+    Rc = _state_R(o)
+    cls = f"{'primed' if st['primed'] else 'fresh'}/after-{st['mut']}"
+    sig = f"{prop}.propagate/history/{cls}"
+    clause = "propagation starts from the current state of the orbit, whatever was done with the object before"
+    if Rc is None:
+        t.fail(f"{prop}.propagate/history/state-lost", "operations keep a valid state", case, None, np.array(o, dtype=float), what)
+        return None
+    if Rc == "outside" or (prop == "J2" and Rc["conic"] == "hyp"):
+        t.exclude("history leaves the property's domain of e / i")
+        try:
+            return o.propagate(_td(dt))
+        except Exception:
+            return None
+    out, x = _propagate(o, _td(dt), t, sig, clause, case, what)
+    st["primed"] = True
+    if x is None:
+        return None
+    t.ev()
+    if out.frame.name != o.frame.name or abs((out.date - (o.date + _td(dt))).total_seconds()) > TOL_TIME:
+        t.fail(sig, "propagate(dt) is the state at date+dt in the same frame", case, [str(o.date + _td(dt)), o.frame.name], [str(out.date), out.frame.name], what)
+        return out
+    if prop == "Kepler":
+        ref = tb.propagate_uv(Rc["rv"], dt, Rc["mu"])
+    else:
+        dOm, dw, dM = j2_rates(Rc)
+        nu = tb.mean_to_true(Rc["M0"] + dM * dt, Rc["e"])[0]
+        ref = tb.kep_to_cart(Rc["a"], Rc["e"], Rc["i"], Rc["Om"] + dOm * dt, Rc["w"] + dw * dt, nu, Rc["mu"])
+    tol = state_tol(Rc, dt) + FAR_SAFETY * far_eta(Rc, ref)
+    d = _rel(x, ref)
+    if not _margin(t, f"history {prop}: vs reference propagation of the current state [rel/tol]", d, tol, case):
+        t.fail(sig, clause, case, ref, x, f"{what}: propagate({dt} s) is {d:.3e} (rel) away from the reference propagation of the object's current state (tol {tol:.1e})")
+    # independence from the call history, sharply: a brand-new Orbit with the same numbers / form / frame / date gives
+    # the same result (same code, same inputs; 1e-12 x cond leaves room for legitimate re-association only)
+    try:
+        from beyond.orbits import Orbit
+
+        fresh = np.array(Orbit(np.array(o, dtype=float), o.date, o.form.name, o.frame.name, prop).propagate(_td(dt)).copy(form="cartesian"), dtype=float)
+        t.trans()
+    except Exception as ex:
+        fresh = None
+    if fresh is not None and np.all(np.isfinite(fresh)):
+        d2 = _rel(x, fresh)
+        if not _margin(t, f"history {prop}: vs a brand-new Orbit with the same content [rel/tol]", d2, 1e-12 * Rc["cond"], case):
+            t.fail(sig, clause, case, fresh, x, f"{what}: propagate({dt} s) differs by {d2:.3e} (rel) from the propagation of a brand-new Orbit with the same numbers, form, frame and date")
+    return out
+
+
+def check_history(prop, orb, form, ops, t):
+    from mc.ref import forms_ref as fr
+
+    R = ref_orbit(orb)
+    forms = [f for f in fr.FORMS if f in R["nums"] and not (R["conic"] == "hyp" and f == "keplerian_mean_circular")]
+    case = dict(kind="history", propagator=prop, orbit=list(orb), form=form, ops=list(ops), config={"eop": "pass"})
+    st = dict(obj=_orbit(R, form, "EME2000", prop), primed=False, mut="none")
+    for k, op in enumerate(ops):
+        o = st["obj"]
+        what = f"step {k} ({op}) of {list(ops)} from {form}"
+        try:
+            if op == "prop":
+                _hk_propagate(t, st, 1234.0, prop, case, what)
+            elif op == "step":
+                out = _hk_propagate(t, st, 600.0, prop, case, what)
+                if out is None:
+                    return
+                st = dict(obj=out, primed=False, mut="propagated")
+            elif op == "idx":
+                o[3:] = np.array(o, dtype=float)[3:] * 1.01
+                st["mut"] = "write"
+            elif op == "name":
+                setattr(o, o.form.param_names[0], float(np.array(o, dtype=float)[0]) * 0.97)
+                st["mut"] = "write"
+            elif op == "form":
+                o.form = forms[(forms.index(o.form.name) + 3) % len(forms)]
+                st["mut"] = "form" if st["mut"] != "write" else "write"
+            elif op == "frame":
+                o.frame = HK_FRAMES[o.frame.name]
+                st["mut"] = "frame" if st["mut"] != "write" else "write"
+            elif op == "copy":
+                st = dict(obj=o.copy(), primed=False, mut="copied")
+            else:
+                raise ValueError(op)
+        except Exception as ex:
+            if op not in HK_OPS:
+                raise
+            t.fail(f"{prop}.propagate/history/{op}-raises", "operations on an orbit succeed", case, None, repr(ex), f"{what}: {ex!r}")
+            return
+        t.trans()
+    t.states_add(1)
+    t.ev(("hist", prop) + tuple(orb) + (form,) if ops else None)
+    for dt in HK_FINAL:
+        _hk_propagate(t, st, dt, prop, dict(case, final_dt=dt), f"final propagate({dt} s) after {list(ops)} from {form}")
+    t.outcome(("hist", prop, len(ops), tuple(sorted(set(ops)))))
+
+
 def run_unit(p, t):
+    if p.get("part") == "hist":
+        orb = tuple(p["orbit"])
+        if p["first"] == HK_OPS[0]:
+            check_history(p["propagator"], orb, p["form"], (), t)
+        for ops in hk_histories(p["depth"]):
+            if ops and ops[0] == p["first"]:
+                check_history(p["propagator"], orb, p["form"], ops, t)
+        return
     tier = p["tier"]
     for orb in base_orbits(tier):
         if orb[0] != p["e"]:
@@ -506,5 +684,7 @@ def replay(case, t):
         check_kepler(orb, case["form"], case["frame"], case["dt"], t)
     elif case["kind"] == "j2":
         check_j2(orb, case["form"], case["frame"], case["dt"], t)
+    elif case["kind"] == "history":
+        check_history(case["propagator"], orb, case["form"], tuple(case["ops"]), t)
     else:
         raise ValueError(case["kind"])
